@@ -48,8 +48,10 @@ def one(name, extra_checks):
         p = sh(["/venv/bin/python", demo], env=env_for(wt), cwd=wt, timeout=600)
         meta["demo_with_patch_exit"] = p.returncode
         meta["demo_with_patch_tail"] = (p.stdout + p.stderr).strip().splitlines()[-1][:300] if (p.stdout + p.stderr).strip() else ""
-        for c in [prop] + extra_checks:
+        for c in [prop] + [x for x in extra_checks if x != prop]:
             env = dict(os.environ, VERIF_REPO=wt, VERIF_JOBS=os.environ.get("SENS_JOBS", "4"))
+            if c != prop and os.environ.get("ALSO_FRAC"):
+                env["VERIF_FRAC"] = os.environ["ALSO_FRAC"]
             q = sh(["/venv/bin/python", os.path.join(VERIF, "check.py"), c, "--tier", "quick"], env=env, timeout=3000)
             first = [l for l in q.stdout.splitlines() if l.startswith("violation:")]
             meta["ran"].append({"cmd": "VERIF_REPO=<patched worktree> check.py %s --tier quick" % c, "exit": q.returncode, "first_violation": first[0][:400] if first else None, "summary": q.stdout.strip().splitlines()[-1][:300] if q.stdout.strip() else q.stderr[-300:]})
@@ -69,7 +71,7 @@ def main():
         args = [a for a in args if a != ",".join(extra)]
     if args:
         names = [n for n in names if any(a in n for a in args)]
-    with cf.ThreadPoolExecutor(max_workers=3) as ex:
+    with cf.ThreadPoolExecutor(max_workers=4) as ex:
         for meta in ex.map(lambda n: one(n, extra), names):
             old = {}
             mp = os.path.join(SEEDED, meta["id"], "meta.json")
